@@ -316,7 +316,9 @@ func runC09(c *core.Ctx) {
 	// a queued message is not overwritten by another writer's bytes: buffers handed to the queue are private
 	// and are not recycled while queued (C10), and codecs hand down no scratch shared between messages (C04)
 	c.Rule("R6", "a queued message's buffer is not reused for another message before it is written (shared with C10-R1/R4/R6 and C04-R3)", 2)
-	importObligations(c, runC10, "R6", func(o *core.Obligation) bool { return o.Rule == "R1" || o.Rule == "R4" || o.Rule == "R6" || o.Rule == "R8" })
+	importObligations(c, runC10, "R6", func(o *core.Obligation) bool {
+		return o.Rule == "R1" || o.Rule == "R4" || o.Rule == "R6" || o.Rule == "R8"
+	})
 	importObligations(c, runC04, "R6", func(o *core.Obligation) bool { return o.Rule == "R3" })
 	// below the single sender the wrapper keeps one write sink: a batch never overtakes bytes still buffered
 	c.Rule("R7", "transport wrappers write through one sink (shared with C17-R1)", 2)
